@@ -713,13 +713,13 @@ for _n in ("sin", "cos", "tan", "acos", "asin", "atan"):
 
 def _m_floor(x):
     if isinstance(x, SymReal):
-        raise Unsupported("floor of symbolic")
+        return x.__floor__()
     return _math.floor(x)
 
 
 def _m_ceil(x):
     if isinstance(x, SymReal):
-        raise Unsupported("ceil of symbolic")
+        return x.__ceil__()
     return _math.ceil(x)
 
 
